@@ -103,6 +103,18 @@ def chain(ctx, key, tag):
     rs = fd.ret_slice()
     ctx.decide(o, slice_has_call_def(rs, OUT) is not None, "return value comes from create_output_json",
                "return value does not come from create_output_json")
+    o = ctx.ob("%s.flow-06c-every-vehicle-type" % tag, "T1", key,
+               "inside the loop over all vehicle types the optimised transition is stored unconditionally")
+    from .C03 import only_loop_controls
+    ins_ = [c for c in fd.body.calls() if (c.callee or "").endswith("HashMap::insert") and any("Transition" in t for t in c.targs)]
+    if not ins_:
+        ctx.bad(o, "no insert into the map of optimised transitions found")
+    else:
+        oth = only_loop_controls(fd, ins_[0])
+        ctx.decide(o, not oth and call("model::vehicle_types::VehicleTypes::iter") in fd.slice(seed_blocks=[ins_[0].bb])["atoms"],
+                   "only the loop over vehicle_types controls the insert",
+                   "a vehicle type can be skipped (extra condition at %s): set_next_day_transitions then installs a map without it and "
+                   "next_day_transition_of panics for that type" % (oth[0][0].line() if oth else "?"), loc=ins_[0].line())
     # no Schedule -> Schedule stage after the alignment (C05.R2 shares this)
     o = ctx.ob("%s.flow-12-nothing-after-alignment" % tag, "T4", key,
                "no schedule-producing call sits between the end-depot alignment and the output")
